@@ -1542,7 +1542,7 @@ def make_machine():
             self.do({"op": "set_held", "slot": s})
             self.do({"op": "launch", "how": how})
 
-        @rule(n=st.sampled_from([2, 2, 3]), go=st.sampled_from([True, False, False, False]), data=st.data())
+        @rule(n=st.sampled_from([2, 2, 3]), go=st.sampled_from([True] + [False] * 5), data=st.data())
         def pipeline(self, n, go, data):
             if not go:          # (a real pipeline costs 30-100 ms)
                 self.do({"op": "launch", "how": "spec"})
@@ -1648,7 +1648,7 @@ def main(run):
     nw = 8 if run.tier == "quick" else 16
     per_var = run.n(100, 2500)
     common.pool_map(run, __name__, "worker_a", [(run.seed, per_var, w, nw, open_ids) for w in range(nw)], procs=nw)
-    total = run.n(6000, 200000)
+    total = run.n(4000, 200000)
     steps = run.n(30, 40)
     common.pool_map(run, __name__, "worker_machine",
                     [(common.worker_seed(run.seed, 1000 + w), total // nw, steps, open_ids) for w in range(nw)],
